@@ -289,6 +289,19 @@ example :
       = [1, 2, 3, 4] := by decide
 example : gensClean [⟨[⟨[1, 2], none, false, 0⟩], 1⟩, ⟨[⟨[3], none, false, 0⟩], 1⟩] = true := by decide
 
+/-! ### Closure does not wait for the statistics backend -/
+
+/-- **The other end observes closure however slow the statistics backend is**: running the steps of
+`Bridge.Close` — the list regenerated from the source — closes both endpoints whether or not the
+final traffic report ever returns; and when it does return, it has run (once). -/
+theorem C02_close_endpoints_first (stall : Bool) :
+    (closeRun stall Skel.Bridge_Close {}).srcClosed = true ∧ (closeRun stall Skel.Bridge_Close {}).tgtClosed = true ∧
+    (closeRun stall Skel.Bridge_Close {}).reported = !stall := by
+  cases stall <;> decide
+
+/-- The order matters: with the report first, a stalled backend leaves both ends open (a test of the model). -/
+example : (closeRun true ["ManagerBase.Close", "sourceConn.Close", "targetConn.Close"] {}).srcClosed = false := by decide
+
 /-! ### Non-vacuity -/
 
 /-- A script with a timeout, a short write and an error mid-way: the model
